@@ -20,7 +20,7 @@ vars == <<st, l, hl, memo>>
 
 NoHullRec == [some |-> FALSE]
 
-TraceInit == st = [o \in Objs |-> NoState] /\ l = 1 /\ hl = [o \in Objs |-> NoHullRec] /\ memo = {} /\ TLCSet(8, 0)
+TraceInit == st = [o \in Objs |-> NoState] /\ l = 1 /\ hl = [o \in Objs |-> NoHullRec] /\ memo = {} /\ TLCSet(8, 0) /\ TLCSet(9, IOEnv.ONLYC19 = "1")
 
 Ev    == Rec[l]
 IsEvent(e) == l <= Len(Rec) /\ Rec[l].ev = e /\ l' = l + 1 /\ TLCSet(8, l)
@@ -157,7 +157,26 @@ TFaulted ==
   /\ Faulted(Ev.post, Ev.args, Ev.res)
   /\ UNCHANGED <<st, hl, memo>>
 
+\* C19: calls whose inputs are outside the exact lattice (raw magnitudes, non-finite coordinates):
+\* only "returns, typed, no panic, within the watchdog" is judged (IsEvent), plus refusal of
+\* non-finite coordinates
+TRawCall ==
+  /\ IsEvent("RawCall")
+  /\ Chk("C19.non-finite coordinate accepted",
+         Ev.args.call \in {"insert(non-finite)", "insert_with_statistics(non-finite)", "flip_k1_insert(non-finite)"}
+           => Ev.res.kind \notin {"Ok"})
+  /\ Chk("C19.non-finite coordinate entered a triangulation",
+         Ev.args.call = "construct(non-finite input)" => Ev.res.kind # "Ok:contains-non-finite")
+  /\ UNCHANGED <<st, hl, memo>>
+
+TRawCheck ==
+  /\ IsEvent("RawCheck")
+  /\ Chk("C19.refused non-finite call changed the triangulation", Ev.res.unchanged)
+  /\ Chk("C19.non-finite coordinate entered a triangulation", ~Ev.res.contains_non_finite)
+  /\ UNCHANGED <<st, hl, memo>>
+
 TraceNext ==
+  \/ TRawCall \/ TRawCheck
   \/ TFaulted
   \/ TReset \/ TConstruct \/ TInsert \/ TRemove \/ TFlip \/ TRepair \/ TVerdicts
   \/ TEmpty \/ TSetPolicy \/ TLocate \/ THullCreate \/ THullQuery \/ TQueries
